@@ -1,36 +1,103 @@
 /-
-Preservation of the recency invariant by the modelled operations
-(put / delete, rotate, flush, L0→ingest move, close+reopen), one lemma per op.
+The recency invariant over ALL modelled operations (put / delete, rotate, flush, L0→ingest move,
+ingest keep, ingest drain, close+reopen) and its preservation, one lemma per op.
+
+`flat s` = every source concatenated in the order a good configuration visits them
+(memtable, immutables newest first, L0 newest first, ingest buffer in arrival order, main tables).
+Invariant `Inv s w`:
+* `same`  — `pick q (flat s) = pick q w` for every query (`w` = write log, newest first);
+* `ne`    — L0 and ingest tables are non-empty;
+* `ord`   — the main tables are non-empty with strictly increasing, disjoint user-key ranges;
+* `dom`   — a main table that an ingest-keep merge consumed (`dead`: gone at the next reopen) is
+            dominated by the sources above the main tables.
 -/
-import NoKVModel.Lsm.Lemmas
+import NoKVModel.Lsm.MainLemmas
 
 namespace NoKV.Lsm
 
-/-- ops covered by the unbounded refinement theorem -/
-def Op.basic : Op → Bool
-  | .put _ | .rotate | .flush | .l0move | .reopen => true
-  | .keep | .drain => false
+/-- memtables and L0, in visiting order -/
+def pre (s : St) : List Entry := (s.mem :: s.imms).flatten ++ s.l0.flatten
+/-- everything above the main tables -/
+def upper (s : St) : List Entry := pre s ++ s.ing.flatten
+def flat (s : St) : List Entry := upper s ++ s.mainE.flatten
 
-/-- writes the API accepts unchanged: non-empty key within `maxKeySize`, version ≥ 1 -/
-def Op.wf : Op → Prop
-  | .put e => e.key ≠ [] ∧ e.key.length ≤ maxKeySize ∧ 1 ≤ e.ver
-  | _ => True
+theorem upper_eq (s : St) :
+    upper s = s.mem ++ (s.imms.flatten ++ (s.l0.flatten ++ s.ing.flatten)) := by
+  simp [upper, pre, List.append_assoc]
 
-/-- recency invariant, in its `pick` form: the sources, concatenated in visiting order, answer
-    every query like the write log does -/
+/-! ### `get` of a good configuration is `pick` over `flat` -/
+
+theorem get_good (c : Cfg) (hc : c.AllGood) (s : St) (q : IK) (hord : OrderedE s.mainE) :
+    get c s q = pick q (flat s) := by
+  obtain ⟨⟨h1, h2, h3, h4, h5, h6, -, -⟩, -, hz⟩ := hc
+  have e0 : scan .lt true q (0, none) s.l0 = (accV (pick q s.l0.flatten), pick q s.l0.flatten) :=
+    scan_found q s.l0 none
+  have e1 : scan .lt true q (0, none) s.ing = (accV (pick q s.ing.flatten), pick q s.ing.flatten) :=
+    scan_found q s.ing none
+  have e2 := scan_found q (mainCandidate s.mainE (q.cf :: q.key)) (pick q s.ing.flatten)
+  have hcand : pick q (mainCandidate s.mainE (q.cf :: q.key)).flatten = pick q s.mainE.flatten :=
+    pick_mainCandidate (q := q) hord
+  unfold get levelGet
+  simp only [h1, h2, h3, h4, h5, h6, hz, immVisit, l0Visit, ingVisit, e0, e1, e2, hcand]
+  rw [List.foldr_append, foldr_better_pick]
+  simp only [List.foldr, better_none_right, flat, upper, pre, pick_append, better_assoc]
+
+/-! ### the invariant -/
+
 structure Inv (s : St) (w : List Entry) : Prop where
-  main : s.main = []
-  pos : ∀ e ∈ flat s, 1 ≤ e.ver
   same : ∀ q, pick q (flat s) = pick q w
+  ne : ∀ t, t ∈ s.l0 ∨ t ∈ s.ing → t ≠ []
+  ord : OrderedE s.mainE
+  dom : ∀ t ∈ s.main, t.dead = true → ∀ q, rk (pick q t.ents) ≤ rk (pick q (upper s))
 
-theorem inv_of_flat_eq {s s' : St} {w : List Entry} (h : Inv s w) (hm : s'.main = [])
-    (hf : flat s' = flat s) : Inv s' w :=
-  ⟨hm, by rw [hf]; exact h.pos, by intro q; rw [hf]; exact h.same q⟩
+theorem inv_init : Inv {} [] :=
+  ⟨by intro q; rfl, by intro t h; simp at h, ⟨by intro t h; simp [St.mainE] at h, by simp [St.mainE]⟩,
+   by intro t h; simp at h⟩
 
-theorem flat_rotate (s : St) : flat (rotate s) = flat s := by
-  simp [flat, rotate]
+/-- ops that leave `upper` and the main tables unchanged -/
+theorem inv_of_upper_eq {s s' : St} {w : List Entry} (h : Inv s w) (hu : upper s' = upper s)
+    (hm : s'.main = s.main) (hne : ∀ t, t ∈ s'.l0 ∨ t ∈ s'.ing → t ≠ []) : Inv s' w := by
+  have hE : s'.mainE = s.mainE := by simp [St.mainE, hm]
+  refine ⟨?_, hne, by rw [hE]; exact h.ord, ?_⟩
+  · intro q; rw [flat, hu, hE]; exact h.same q
+  · intro t ht hd q; rw [hu]; rw [hm] at ht; exact h.dom t ht hd q
 
-theorem flat_flush (s : St) : flat (flush s) = flat s := by
+/-! ### put -/
+
+theorem pick_memPut (q : IK) (e : Entry) (mem r : List Entry) :
+    pick q (memPut e mem ++ r) = better (mq q e) (pick q (mem ++ r)) := by
+  simp only [memPut, List.cons_append, pick]
+  rw [pick_append, ← better_assoc,
+    filter_absorb q e.ik mem (mq q e) (by simpa [better_none_left] using domP_self none q e),
+    better_assoc, ← pick_append]
+
+theorem inv_put {s : St} {w : List Entry} (e : Entry) (h : Inv s w) :
+    Inv { s with mem := memPut e s.mem } (e :: w) := by
+  have hu : ∀ q, pick q (upper { s with mem := memPut e s.mem }) = better (mq q e) (pick q (upper s)) := by
+    intro q
+    rw [upper_eq, upper_eq]
+    exact pick_memPut q e s.mem _
+  refine ⟨?_, h.ne, h.ord, ?_⟩
+  · intro q
+    have : flat { s with mem := memPut e s.mem }
+        = memPut e s.mem ++ ((s.imms.flatten ++ (s.l0.flatten ++ s.ing.flatten)) ++ s.mainE.flatten) := by
+      simp [flat, upper_eq, St.mainE, List.append_assoc]
+    rw [this, pick_memPut]
+    have h2 : s.mem ++ ((s.imms.flatten ++ (s.l0.flatten ++ s.ing.flatten)) ++ s.mainE.flatten) = flat s := by
+      simp [flat, upper_eq, List.append_assoc]
+    rw [h2, h.same q]
+    rfl
+  · intro t ht hd q
+    rw [hu q, rk_better]
+    have := h.dom t ht hd q
+    omega
+
+/-! ### rotate, flush, L0→ingest move -/
+
+theorem upper_rotate (s : St) : upper (rotate s) = upper s := by
+  simp [upper, pre, rotate]
+
+theorem upper_flush (s : St) : upper (flush s) = upper s := by
   unfold flush
   split
   · rfl
@@ -44,11 +111,32 @@ theorem flat_flush (s : St) : flat (flush s) = flat s := by
     split
     · rename_i ht
       subst ht
-      simp [flat, himms]
-    · simp [flat, himms, List.append_assoc]
+      simp [upper, pre, himms]
+    · simp [upper, pre, himms, List.append_assoc]
 
-theorem flat_l0moveAt (k : Nat) (s : St) : flat (l0moveAt k s) = flat s := by
-  simp only [flat, l0moveAt, List.flatten_append]
+theorem flush_main (s : St) : (flush s).main = s.main := by
+  unfold flush
+  split
+  · rfl
+  · split <;> rfl
+
+theorem flush_ne {s : St} (h : ∀ t, t ∈ s.l0 ∨ t ∈ s.ing → t ≠ []) :
+    ∀ t, t ∈ (flush s).l0 ∨ t ∈ (flush s).ing → t ≠ [] := by
+  unfold flush
+  split
+  · exact h
+  · split
+    · exact h
+    · rename_i hne
+      intro t ht
+      rcases ht with ht | ht
+      · rcases List.mem_cons.mp ht with ht | ht
+        · subst ht; exact hne
+        · exact h t (Or.inl ht)
+      · exact h t (Or.inr ht)
+
+theorem upper_l0moveAt (k : Nat) (s : St) : upper (l0moveAt k s) = upper s := by
+  simp only [upper, pre, l0moveAt, List.flatten_append, List.append_assoc]
   rw [← List.append_assoc (List.flatten (List.take _ _)), ← List.flatten_append, List.take_append_drop]
 
 theorem l0move_cases (c : Cfg) (s : St) :
@@ -58,95 +146,14 @@ theorem l0move_cases (c : Cfg) (s : St) :
   repeat' split
   all_goals first | exact Or.inl rfl | exact Or.inr ⟨_, rfl⟩
 
-theorem flatten_filter_ne_nil (l : List Src) :
-    (l.filter (fun t => !decide (t = []))).flatten = l.flatten := by
-  induction l with
-  | nil => rfl
-  | cons t l ih =>
-    by_cases h : t = []
-    · subst h; simpa [List.filter_cons] using ih
-    · simp [List.filter_cons, h, ih]
-
-theorem foldl_eraseOne_nil (d : List Src) : d.foldl (fun m t => eraseOne t m) [] = [] := by
-  induction d with
-  | nil => rfl
-  | cons t d ih => simpa [List.foldl, eraseOne] using ih
-
-theorem flat_reopen (s : St) : flat (reopen s) = flat s := by
-  simp [flat, reopen, flatten_filter_ne_nil, List.append_assoc]
-
-theorem write_wf (c : Cfg) (s : St) (e : Entry) (h : (Op.put e).wf) :
-    (write c s e).1 = { s with mem := memPut e s.mem } := by
-  obtain ⟨h1, h2, _⟩ := h
-  unfold write
-  have h3 : ¬ (c.plainKeyLimit = true ∧ e.key.length > maxKeySize) := by
-    intro ⟨_, h⟩; omega
-  have h4 : 4 + e.key.length + 8 < 65536 := by
-    unfold maxKeySize at h2; omega
-  simp [h1, h3, h4]
-
-theorem inv_put {s : St} {w : List Entry} (e : Entry) (h : Inv s w) (hp : 1 ≤ e.ver) :
-    Inv { s with mem := memPut e s.mem } (e :: w) := by
-  have hflat : flat s = s.mem ++ (s.imms.flatten ++ (s.l0.flatten ++ s.ing.flatten)) := by
-    simp [flat]
-  have hflat' : flat { s with mem := memPut e s.mem }
-      = e :: (s.mem.filter (fun x => x.ik ≠ e.ik) ++ (s.imms.flatten ++ (s.l0.flatten ++ s.ing.flatten))) := by
-    simp [flat, memPut]
-  refine ⟨h.main, ?_, ?_⟩
-  · intro x hx
-    rw [hflat'] at hx
-    rcases List.mem_cons.mp hx with hx | hx
-    · subst hx; exact hp
-    · apply h.pos
-      rw [hflat]
-      rcases List.mem_append.mp hx with hx | hx
-      · exact List.mem_append_left _ (List.mem_filter.mp hx).1
-      · exact List.mem_append_right _ hx
-  · intro q
-    rw [hflat']
-    simp only [pick]
-    rw [pick_append, ← better_assoc,
-      filter_absorb q e.ik s.mem (mq q e) (by simpa [better_none_left] using domP_self none q e),
-      better_assoc, ← pick_append, ← hflat, h.same q]
-
-theorem inv_step (c : Cfg) {s : St} {w : List Entry} (op : Op) (hb : op.basic = true) (hw : op.wf)
-    (h : Inv s w) : Inv (step c s op) (logStep w op) := by
-  cases op with
-  | put e =>
-    simp only [step, logStep]
-    rw [write_wf c s e hw]
-    exact inv_put e h hw.2.2
-  | rotate => exact inv_of_flat_eq h (by simpa [step, rotate] using h.main) (flat_rotate s)
-  | flush =>
-    refine inv_of_flat_eq h ?_ (flat_flush s)
-    simp only [step]
-    unfold flush
-    split
-    · exact h.main
-    · split <;> exact h.main
-  | l0move =>
-    simp only [step, logStep]
-    rcases l0move_cases c s with h1 | ⟨k, h1⟩
-    · rw [h1]; exact h
-    · rw [h1]; exact inv_of_flat_eq h (by simpa [l0moveAt] using h.main) (flat_l0moveAt k s)
-  | reopen =>
-    refine inv_of_flat_eq h ?_ (flat_reopen s)
-    simp [step, reopen, h.main, foldl_eraseOne_nil]
-  | keep => simp [Op.basic] at hb
-  | drain => simp [Op.basic] at hb
-
-theorem inv_run (c : Cfg) (ops : List Op) :
-    ∀ (s : St) (w : List Entry), Inv s w → (∀ op ∈ ops, op.basic = true ∧ op.wf) →
-      Inv (run c s ops) (logOf w ops) := by
-  induction ops with
-  | nil => intro s w h _; exact h
-  | cons op ops ih =>
-    intro s w h hops
-    have h1 := hops op List.mem_cons_self
-    simp only [run, logOf, List.foldl]
-    exact ih _ _ (inv_step c op h1.1 h1.2 h) (fun o ho => hops o (List.mem_cons_of_mem _ ho))
-
-theorem inv_init : Inv {} [] :=
-  ⟨rfl, by intro e h; simp [flat] at h, by intro q; rfl⟩
+theorem inv_l0moveAt {s : St} {w : List Entry} (k : Nat) (h : Inv s w) : Inv (l0moveAt k s) w := by
+  refine inv_of_upper_eq h (upper_l0moveAt k s) rfl ?_
+  intro t ht
+  simp only [l0moveAt] at ht
+  rcases ht with ht | ht
+  · exact h.ne t (Or.inl (List.mem_of_mem_take ht))
+  · rcases List.mem_append.mp ht with ht | ht
+    · exact h.ne t (Or.inl (List.mem_of_mem_drop ht))
+    · exact h.ne t (Or.inr ht)
 
 end NoKV.Lsm
